@@ -286,7 +286,7 @@ class BaseBackend(CodeGen):
         self._helper_funcs = []
 
         # definition of extrinsic function _imports
-        self._imports = ["from numpy import pi, sqrt"]
+        self._imports = ["from numpy import pi, sqrt, e as E"]
         if imports:
             for imp in imports:
                 self.add_import(imp)
